@@ -892,7 +892,7 @@ fn text_damage(s: &mut String, t: &mut Tape) -> &'static str {
 fn text(ctx: &mut Ctx, tape: &[u8]) -> CaseResult {
     let es: &'static Vec<Entry> = ENTRIES.with(|e| *e);
     let mut g = Gen::new(tape, 3, 6);
-    let family = g.t.choose(6);
+    let family = g.t.choose(7);
     match family {
         0 | 1 => {
             // JSON of a generated value, mutated, into the same type's from_json
@@ -1031,6 +1031,47 @@ fn text(ctx: &mut Ctx, tape: &[u8]) -> CaseResult {
                     let cands: Vec<&TextParser> = ps.iter().filter(|p| p.name.contains("bech32") || p.name.contains("base58") || p.name.contains("is_valid")).collect();
                     let p = cands[t.choose(cands.len())];
                     run_text(ctx, p, &s, true, "bech32-base58-damage")?;
+                }
+                Ok(())
+            })
+        }
+        6 => {
+            // a valid schema document (metadata: 3 schemas, Plutus data: 2 schemas) of a generated value, then one to
+            // three structural edits (member renamed / removed / nulled / added, array emptied / grown), into every
+            // schema helper: documents that are almost what the helpers expect
+            let mut t;
+            let doc: Option<String> = if g.t.bool() {
+                let m = metadatum(&mut g);
+                t = g.t;
+                let schema = [MetadataJsonSchema::NoConversions, MetadataJsonSchema::BasicConversions, MetadataJsonSchema::DetailedSchema][t.choose(3)];
+                catch(|| decode_metadatum_to_json_str(&m, schema)).ok().and_then(|r| r.ok())
+            } else {
+                let d = plutus_data(&mut g);
+                t = g.t;
+                let schema = if t.bool() { PlutusDatumSchema::BasicConversions } else { PlutusDatumSchema::DetailedSchema };
+                catch(|| decode_plutus_datum_to_json_str(&d, schema)).ok().and_then(|r| r.ok())
+            };
+            let doc = match doc {
+                Some(d) => d,
+                None => {
+                    ctx.reject();
+                    return Ok(());
+                }
+            };
+            let mut j: serde_json::Value = match serde_json::from_str(&doc) {
+                Ok(j) => j,
+                Err(_) => {
+                    ctx.reject();
+                    return Ok(());
+                }
+            };
+            let mut budget = 1 + t.choose(3) as u32;
+            mutate_json(&mut j, &mut t, &mut budget);
+            let s = j.to_string();
+            TEXT_PARSERS.with(|ps| {
+                let cands: Vec<&TextParser> = ps.iter().filter(|p| p.name.starts_with("encode_json_str_to_metadatum") || p.name.starts_with("encode_json_str_to_plutus_datum") || p.name.starts_with("PlutusData::from_json") || p.name == "GeneralTransactionMetadata::from_json" || p.name == "TransactionMetadatum::from_json").collect();
+                for p in cands {
+                    run_text(ctx, p, &s, true, "schema-json-mutation")?;
                 }
                 Ok(())
             })
